@@ -1,9 +1,12 @@
 package props
 
 import (
+	"context"
 	"errors"
 	"fmt"
+	"io"
 	"math"
+	"os"
 	"reflect"
 
 	"verifharness/core"
@@ -42,7 +45,7 @@ type funcErr func() string
 func (e funcErr) Error() string { return "func error" }
 
 // errKinds is the number of error kinds (see mkErr and delegatedErr).
-const errKinds = 14
+const errKinds = 18
 
 // sameErr is interface identity for comparable errors and identity of the underlying
 // storage for the uncomparable kinds (== would panic on them).
@@ -83,6 +86,14 @@ func mkErr(kind int64) error {
 		return mapErr(nil)
 	case 13:
 		return funcErr(nil)
+	case 14:
+		return io.EOF // sentinels of the standard library, as a handler reading from elsewhere would pass on
+	case 15:
+		return io.ErrUnexpectedEOF
+	case 16:
+		return context.Canceled
+	case 17:
+		return os.ErrNotExist
 	}
 	switch kind % 4 {
 	case 0:
